@@ -130,14 +130,43 @@ example : grantedOfT 10 [.half (.write 30), .half (.emit 0 10 false 100), .half 
       .half (.emit 10 25 false 100)]).half.emitted ∧ RR ({ maxSD := 25 } : Stream.Recver) (Rcvr.mk0 25) :=
   ⟨by decide, by decide, rr_init 25⟩
 
-/-- **The two models disagree on one branch** (a finding of the link, not of the code): C11's `Rcvr.reset` with
-`rfix = true` — the current tree, `Recv::recv_reset` refuses a final size beyond `max_stream_data` with
-FLOW_CONTROL_ERROR (fix-C11-reset-limit) — and C01's `Recver.rxReset`, which still accepts it.  The branch is
-unreachable for C01's own sender (`resets` only holds `sentHi ≤ maxData ≤ maxSD`, C01 `Inv.a7/a2/b9`), so C01's
-theorems and its correspondence run are unaffected; C01's model should gain the branch. -/
-theorem reset_models_differ :
-    (({ maxSD := 100 } : Stream.Recver).rxReset 5000).2 = .ok 5000 ∧
+/-- C01's answer to a RESET_STREAM frame, in C11's vocabulary -/
+def obsRst : Except String Nat → RstObs
+  | .ok n => .sync n
+  | .error k => if k = "FlowControl" then .flowControl else .finalSize
+
+/-- **The two models agree on RESET_STREAM** (they differed before: `reset_models_differ`, a finding of the link —
+C01's `Recver.rxReset` lacked the FLOW_CONTROL branch of `Recv::recv_reset`, repair 2d10252).  For ANY related pair of
+receivers (`RR r q`, every phase) and ANY final size — also one no conformant sender would send — C01's `rxReset` and C11's
+`Rcvr.reset` with `rfix = true` (the current tree) give the same verdict: FINAL_SIZE below the largest offset seen /
+different from the known final size, FLOW_CONTROL beyond the advertised limit (checked in that order), otherwise the
+same number of newly accounted bytes; nothing when the entry is gone. -/
+theorem reset_models_agree {r : Stream.Recver} {q : Rcvr} (h : RR r q) (final : Nat) :
+    obsRst (r.rxReset final).2 = (q.reset true final).2 := by
+  obtain ⟨⟨hne, _, hmsd, hlg, hph⟩, _⟩ := h
+  unfold Stream.Recver.rxReset Rcvr.reset
+  cases hph with
+  | recv g rs st ph =>
+    simp only [g, rs, st, ph, hne, hmsd, hlg, Bool.false_eq_true, if_false, Option.isSome_none, true_and]
+    by_cases c1 : final < r.largest
+    · simp [c1, obsRst]
+    · by_cases c2 : final > r.maxSD
+      · simp [c1, c2, obsRst]
+      · simp [c1, c2, obsRst]
+  | sized g rs st ph =>
+    simp only [g, rs, st, ph, hne, Bool.false_eq_true, if_false, Option.isSome_none]
+    by_cases c1 : final ≠ r.finalSize
+    · simp [c1, obsRst]
+    · simp [c1, obsRst]
+  | done g rs st ph =>
+    simp only [g, rs, ph, if_true, Option.isSome_none, Bool.false_eq_true, if_false, obsRst]
+  | reset g rs st =>
+    simp only [g, rs, if_true, obsRst]
+
+-- the input on which the models differed before: limit 100, final size 5000 — both refuse now; at the limit both accept
+example : (({ maxSD := 100 } : Stream.Recver).rxReset 5000).2 = .error "FlowControl" ∧
     ((Rcvr.mk0 100).reset true 5000).2 = .flowControl ∧
-    ((Rcvr.mk0 100).reset false 5000).2 = .sync 5000 := ⟨rfl, by decide, by decide⟩
+    (({ maxSD := 100 } : Stream.Recver).rxReset 100).2 = .ok 100 ∧ ((Rcvr.mk0 100).reset true 100).2 = .sync 100 ∧
+    RR ({ maxSD := 100 } : Stream.Recver) (Rcvr.mk0 100) := ⟨rfl, by decide, rfl, by decide, rr_init 100⟩
 
 end GmQuic.Links
